@@ -221,7 +221,13 @@ def run(ctx):
         if v.key not in seen:
             seen.add(v.key)
             uniq.append(v)
-    uniq.sort(key=lambda v: (v.key.split(":")[0], len(v.key), v.key))
+    # the named deviation last, so that anything else is among the first violations printed
+    uniq.sort(key=lambda v: (v.key.startswith("risk-named-track:"), v.key.split(":")[0], len(v.key), v.key))
+    by_class = {}
+    for v in uniq:
+        c = v.key.split(":")[0]
+        by_class[c] = by_class.get(c, 0) + 1
+    ctx.log("violations by class: %s" % (by_class or "none"))
 
     samples = []
     for o in list(obs.values())[:3]:
@@ -244,6 +250,7 @@ def run(ctx):
         "tlc_law_states": mc.distinct,
         "tlc_constants": {"Comps": COMPS, "MaxComps": maxcomps, "requests<=": 3, "pinned<=": 2},
         "tlc_table_runs": len(tjobs),
+        "violations_by_class": by_class,
         "binding_canaries": "corrupted table entry and corrupted observation both rejected",
     }
     return Result(level="exploration", coverage=cov,
